@@ -772,7 +772,10 @@ class Permutation(base.Recombinator):
     super()._on_bound()
     self._random = random if self.seed is None else random.Random(self.seed)
     if self.where.sym_hasattr('seed'):
-      self.where.rebind(seed=self.seed, skip_notification=True)
+      # NOTE: `where` is notified (but not its parents), so it re-creates its
+      # random number generator from the new seed.
+      self.where.rebind(
+          seed=self.seed, raise_on_no_change=False, notify_parents=False)
 
   def recombine(
       self,
